@@ -1030,3 +1030,55 @@ def explicit_not_overwritten(chk, c, rule, skip=('reference', 'references')):
                            norm(r)[:60], r.lineno, p), '%s:%d' % (fi.module.relpath, r.lineno),
                        key='%s|%s|%s|%s' % (rule, fq, p, norm(r.value)[:30]))
     chk.floor('re-bindings of None-default parameters', n, 30)
+
+
+def match_dereference(chk, c, rule):
+    """The result of re.match / re.search / re.fullmatch is None when the text does not match.  Rule: `.group(..)`, `.groups()`,
+    `.groupdict()`, `.start()`, `.end()`, `.span()` are applied to such a result only where it was found to be a match (a test
+    on the variable on every path), never directly on the call."""
+    import ast
+    from ..cfg import cfg_of, ENTRY, edge_implies
+    from ..src import own_nodes, norm
+    ix = c.index
+    METH = ('group', 'groups', 'groupdict', 'start', 'end', 'span')
+    n = 0
+    for fq, fi in sorted(ix.functions.items()):
+        mn = fi.module.name
+        if mn.startswith('v2_') and not mn.endswith('base_datatypes'):
+            continue
+        mvars = {}
+        for x in own_nodes(fi.node):
+            if isinstance(x, ast.Call) and isinstance(x.func, ast.Attribute) and x.func.attr in METH:
+                r = x.func.value
+                if isinstance(r, ast.Call) and isinstance(r.func, ast.Attribute) and r.func.attr in ('match', 'search', 'fullmatch'):
+                    n += 1
+                    chk.fail(rule, '%s: `%s`' % (fq, norm(x)[:50]),
+                             '.%s() is applied directly to the result of %s: AttributeError when the text does not match' % (
+                                 x.func.attr, norm(r.func)), '%s:%d' % (fi.module.relpath, x.lineno), key='%s|%s|direct' % (rule, fq))
+            if isinstance(x, ast.Assign) and isinstance(x.value, ast.Call) and isinstance(x.value.func, ast.Attribute) and \
+                    x.value.func.attr in ('match', 'search', 'fullmatch') \
+                    and len(x.targets) == 1 and isinstance(x.targets[0], ast.Name):
+                mvars[x.targets[0].id] = x
+        if not mvars:
+            continue
+        g = cfg_of(fi)
+        for v in sorted(mvars):
+            pos, neg = ('%s is not None' % v, v), ('%s is None' % v, 'not %s' % v)
+
+            def unproven(src, dst, lab, g=g, pos=pos, neg=neg):
+                nd = g.nodes[src]
+                return not (nd.kind == 'test' and edge_implies(nd.ast, lab, pos, neg))
+            reach = g.reach(g.node_for(mvars[v]), labels_ok=unproven)
+            for x in own_nodes(fi.node):
+                if isinstance(x, ast.Call) and isinstance(x.func, ast.Attribute) and x.func.attr in METH and \
+                        isinstance(x.func.value, ast.Name) and x.func.value.id == v:
+                    n += 1
+                    nid = g.node_for(x)
+                    # the use may sit in the very test that establishes the match (`m and m.group(1)`): tolerated
+                    same_test = g.nodes[nid].kind == 'test' and v in {z.id for z in ast.walk(g.nodes[nid].ast) if isinstance(z, ast.Name)} and \
+                        isinstance(g.nodes[nid].ast, ast.BoolOp)
+                    bad = nid in reach and not same_test
+                    chk.ob(rule, '%s: `%s` on a successful match only' % (fq, norm(x)[:40]), not bad,
+                           '`%s` can be reached without `%s` having been tested: AttributeError (NoneType) for text that does not '
+                           'match' % (norm(x)[:40], v), '%s:%d' % (fi.module.relpath, x.lineno), key='%s|%s|%s' % (rule, fq, v))
+    chk.floor('uses of regular-expression match objects', n, 2)
